@@ -244,6 +244,12 @@ def batch_programs():
             P.append(Prog(step_name(method, sde_type, noise, d, m, gf) + '_b2', 'Batch', fn, sample, funcs=funcs, tol=tol,
                           props=('C20',)))
 
+    # logqp=True (SDELogqp, diagonal noise: `stable_division`) with one and with two rows, traced without stage cuts
+    for method, sde_type in (('euler', 'ito'), ('heun', 'stratonovich')):
+        for bsz, suf in ((1, ''), (2, '_b2')):
+            fn, sample, funcs = ps.make_logqp_step(method, sde_type, 'diagonal', 1, 1, batch=bsz, mark_stages=False)
+            P.append(Prog(f"lqrow_{method}_{sde_type[0]}_diagonal_11{suf}", 'Batch', fn, sample, funcs=funcs, tol=4e-15, props=('C20',)))
+
     def s_split22(have_H):
         def s(rng):
             d = _times(rng, ['s', 'm', 'e'])
